@@ -267,6 +267,14 @@ def run_kani(pid, part, tier, jobs):
     out["cmd"] = "cd %s && CARGO_NET_OFFLINE=true %s" % (os.path.join(root, crate_dir), " ".join(cmd))
     total_to = part.get("timeout_thorough" if tier == "thorough" else "timeout", 1500 if tier == "quick" else 14400)
     rc, text, dt = sh(cmd, cwd=os.path.join(root, crate_dir), timeout=total_to, logfile=lpath)
+    for _attempt in range(2):
+        # transient cargo failure seen under load ("failed to run `rustc` to learn about
+        # target-specific information"): retry, it is not a verdict
+        if os.path.exists(jpath) or "Failed to get cargo metadata" not in text:
+            break
+        time.sleep(20)
+        rc, text, dt2 = sh(cmd, cwd=os.path.join(root, crate_dir), timeout=total_to, logfile=lpath)
+        dt += dt2
     out["wall_s"] = dt
     out["log"] = lpath
     reap_orphans()
